@@ -1714,7 +1714,12 @@ func (s *BgpServer) handleFSMMessage(peer *peer, e *fsmMsg) {
 		conf.State.SessionState = oc.IntToSessionStateMap[int(nextState)]
 		peer.fsm.pConf.Update(&conf)
 
-		nextStateIdle := conf.GracefulRestart.State.PeerRestarting && nextState == bgp.BGP_FSM_IDLE
+		// Only the expiry of the restart timer ends the restart of a peer: a
+		// connection attempt that fails before Established also goes back to
+		// Idle, but RFC 4724 4.2 keeps the stale routes until the restart
+		// time has elapsed.
+		nextStateIdle := conf.GracefulRestart.State.PeerRestarting && nextState == bgp.BGP_FSM_IDLE &&
+			e.StateReason != nil && e.StateReason.Type == fsmRestartTimerExpired
 		peer.fsm.lock.Unlock()
 
 		// PeerDown
